@@ -10,6 +10,7 @@
 //!   SIMGIT_TRACE  file receiving one line per call: idx \t pid \t ppid \t label \t proxied \t argv(json)
 //!   SIMGIT_PLAN   `<idx>=<verdict>;...`   verdicts: fail:<code> | short:<bytes> | kill | go
 //!   SIMGIT_NETDOWN  substring; any call whose argv contains it fails with 128 (partition)
+//!   SIMGIT_MATCH  `<arg>,<arg>..=<verdict>`: every internal call that has all the listed words as whole arguments gets the verdict
 //!   GIT_AI_VERIF_SOCK  controller socket: park before the call, obey its verdict
 //!   GIT_AI_VERIF_LABEL process label for the controller
 use std::io::{BufRead, BufReader, Read, Seek, SeekFrom, Write};
@@ -86,6 +87,15 @@ fn main() {
         if let Ok(nd) = std::env::var("SIMGIT_NETDOWN") {
             if !nd.is_empty() && args.iter().any(|a| a.contains(&nd)) {
                 verdict = "fail:128".to_string();
+            }
+        }
+    }
+    if verdict == "go" && !proxied {
+        if let Ok(m) = std::env::var("SIMGIT_MATCH") {
+            if let Some((words, v)) = m.split_once('=') {
+                if !words.is_empty() && words.split(',').all(|w| args.iter().any(|a| a == w)) {
+                    verdict = v.to_string();
+                }
             }
         }
     }
